@@ -132,6 +132,17 @@ CLAIMED = {
         note="Descriptors are computed by harness code with exact Fraction arithmetic; an integer spelled as text and rounded by Float is reported as MODEL-DRIFT only.",
         technique="TLC evaluation of serialisation records against the domain predicates of Scalars.tla",
     ),
+    "C17": dict(
+        category="model_checking",
+        text=("Abstract schemas from a seeded generator (all type kinds, interface hierarchies with covariant fields, recursive and OneOf input objects, "
+              "custom directives, non-default root names, adversarial descriptions/deprecation reasons, defaults of every input type) are rendered twice - SDL "
+              "written by the harness and programmatic GraphQL* constructors. For each real schema: print_schema -> build_schema succeeds and validates, the "
+              "reprint is identical, find_schema_changes is empty, and TLC (SchemaV.tla) checks that the projections of the rendered and of the rebuilt schema "
+              "equal the abstract schema (order included) and that the abstract schema satisfies SchemaValid.tla."),
+        design_ref="DESIGN.md 5/C17",
+        note="The projection is a structural walk over public attributes; print/rebuild laws are metamorphic; TLC decides model-state equality and validity of the generated schema.",
+        technique="abstract-schema generator with two independent renderers + TLC evaluation of projections against the model (SchemaV.tla/SchemaValid.tla)",
+    ),
     "C09": dict(
         category="model_checking",
         text=("TLC checks the grammar theorems (spans disjoint/ordered with ignored gaps, filler insertion at every boundary invisible, Strip laws) on every string "
